@@ -13,7 +13,7 @@
 (*             kn  N(k[t], c[t])                    as x || y || c         *)
 (*             kq  CKDpub(K[t-1], c[t-1], i_t)      as x || y || c         *)
 (*           each an item [st : "ok" | "err" | "na", v : bytes].  The spec *)
-(*           recomputes every node FROM THE SEED (SpecNodes) and judges.   *)
+(*           recomputes every node FROM THE SEED (PathNodes) and judges.   *)
 (*           The published BIP32 vectors are such events with xs / pu set  *)
 (*           to the published strings (spec self-test).                    *)
 (*   deser   Base58Check string -> accept/reject (+ fields)                *)
@@ -22,19 +22,6 @@
 EXTENDS Bip32, Secp256k1, Json, IOUtils, TLC
 Trace == JsonDeserialize(IOEnv.TRACE_FILE)
 VARIABLE l
-
-(* ---- what the specification derives from the seed: one record per node ---- *)
-(* x : Ok(xprv) | Fail   K : its public point   q : CKDpub(parent K, parent c, i) (Fail for hardened i / node 0) *)
-Node(x, q) == [x |-> x, K |-> IF x.ok THEN PubOf(x.v.key) ELSE Inf, q |-> q]
-RECURSIVE SpecNodes(_, _)
-SpecNodes(acc, path) ==
-    IF path = <<>> THEN acc
-    ELSE LET par == acc[Len(acc)]
-             i   == Head(path)
-         IN SpecNodes(Append(acc, IF par.x.ok
-                                  THEN Node(ChildP(par.x.v, par.K, i), CKDpub(par.K, par.x.v.cc, i))
-                                  ELSE Node(Fail, Fail)),
-                      Tail(path))
 
 PointBytes(K) == NToBE(K[1], 32) \o NToBE(K[2], 32)
 
@@ -100,7 +87,7 @@ DeriveVerdict(e) ==
         v0 == First(<<Judge(e.master, m.ok, IF m.ok THEN Ser256(m.v.k) \o m.v.c ELSE <<>>, "master"),
                       Judge(e.root, x0.ok, IF x0.ok THEN XKeyStr(x0.v) ELSE <<>>, "root-xprv")>>)
     IN IF v0 # "ok" THEN v0
-       ELSE Walk(e, SpecNodes(<<Node(x0, Fail)>>, e.path), 0)
+       ELSE Walk(e, PathNodes(x0, e.path), 0)
 
 (* fields as the code returns them, flattened: version depth fingerprint childnum chaincode key *)
 (* (key: ser256(k) for a private key, x || y for a public key)                                 *)
